@@ -37,6 +37,7 @@ impl MapUniverse {
             jitter: 0,
             repeat: self.repeat,
             stream_style: 0,
+            cs_tenths: 0,
         }
     }
 
